@@ -79,7 +79,12 @@ def encode_dataset(ds):
 
 
 def as_int(v):
-    return struct.unpack('<H', v)[0] if len(v) == 2 else struct.unpack('<I', v)[0]
+    """Value of a US / UL element; -2 when the value field has any other length (empty, odd...)."""
+    if len(v) == 2:
+        return struct.unpack('<H', v)[0]
+    if len(v) == 4:
+        return struct.unpack('<I', v)[0]
+    return -2
 
 
 def text(v):
